@@ -134,6 +134,8 @@ def check_segment(pts, d):
     if L < d:
         if len(out) != 1:
             return "a curve shorter than the step did not become its chord"
+        if getattr(out[0], "_orig", None) is not seg:
+            return "the chord of a short curve does not remember the curve as its origin"
         return None
     if len(out) <= L / (2 * d):
         return "a curve of length %r was divided into %d edges, not more than length/(2d) = %r" % (L, len(out), L / (2 * d))
@@ -159,8 +161,8 @@ def check_segment(pts, d):
     return None
 
 
-def check_path(segs, d):
-    p = oc.path_from(segs, False)
+def check_path(segs, d, closed=False):
+    p = oc.path_from(segs, closed)
     before = [oc.seg_pts(s) for s in p.asSegments()]
     if sum(oc.mkseg(s).length for s in segs) / d > 3000:
         return "skip"
@@ -170,19 +172,39 @@ def check_path(segs, d):
         return "path flatten raised %s: %s" % (type(e).__name__, e)
     if [oc.seg_pts(s) for s in p.asSegments()] != before:
         return "flatten modified the original path"
+    if f.closed != p.closed:
+        return "flatten changed the closed flag (%r -> %r)" % (p.closed, f.closed)
     out = f.asSegments()
     if not out or (out[0].start.x, out[0].start.y) != segs[0][0] or (out[-1].end.x, out[-1].end.y) != segs[-1][-1]:
         return "flattened path does not run from the original start to the original end"
     for a, b in zip(out, out[1:]):
         if (a.end.x, a.end.y) != (b.start.x, b.start.y):
             return "flattened path is not connected"
+    # the path is flattened segment by segment: its edges are, in order, the edges each segment's own flatten(d) gives
+    # (checked in full by check_segment), every curve-derived edge remembers ITS segment of the path, lines are copies
+    own = p.asSegments()
+    expect = []
+    for sgm in own:
+        for e in sgm.flatten(d):
+            expect.append((oc.seg_pts(e), sgm if len(sgm.points) > 2 else None))
+    if len(out) != len(expect):
+        return "flattened path has %d edges, its segments flatten to %d in all" % (len(out), len(expect))
+    for e, (pts, src) in zip(out, expect):
+        if not isinstance(e, Line):
+            return "flattened path contains something that is not a Line"
+        if oc.seg_pts(e) != pts:
+            return "an edge %r of the flattened path differs from the corresponding edge %r of its segment's own flatten" % (oc.seg_pts(e), pts)
+        if src is not None and getattr(e, "_orig", None) is not src:
+            return "an edge of the flattened path obtained from a curve does not remember that curve as its origin (_orig = %r)" % (getattr(e, "_orig", None),)
+        if any(e is o for o in own):
+            return "the flattened path shares a segment object with the original"
     return None
 
 
 def run_one(kind, inp):
     if kind == "seg":
         return check_segment([tuple(p) for p in inp["pts"]], inp["d"])
-    return check_path([[tuple(p) for p in s] for s in inp["segs"]], inp["d"])
+    return check_path([[tuple(p) for p in s] for s in inp["segs"]], inp["d"], inp.get("closed", False))
 
 
 def search(ctx, budget):
@@ -200,7 +222,11 @@ def search(ctx, budget):
                 pts[0] = cur
                 cur = pts[-1]
                 segs.append(pts)
-            inp = {"segs": segs, "d": rng.choice([0.5, 2.0, 8.0, 25.0, 100.0])}
+            closed = rng.random() < 0.5
+            if closed and segs[-1][-1] != segs[0][0]:
+                segs.append([segs[-1][-1], segs[0][0]] if rng.random() < 0.5 else
+                            [segs[-1][-1], (float(rng.randint(-100, 100)), float(rng.randint(-100, 100))), segs[0][0]])
+            inp = {"segs": segs, "d": rng.choice([0.5, 2.0, 8.0, 25.0, 100.0]), "closed": closed}
             kind = "path"
         else:
             pts = rand_curve(rng) if i % 6 else oc.rand_seg_pts(rng, 2, "int")
